@@ -50,6 +50,7 @@ type vL18Scenario struct {
 	Req   string     `json:"req"`
 	RSeed int64      `json:"rseed"`
 	Craft string     `json:"craft"`
+	Seq   bool       `json:"seq"`
 }
 
 type vL18Answer struct {
@@ -71,6 +72,7 @@ type vL18Gate struct {
 	arrivals chan *vL18Arrival
 	sent     map[int]string
 	inflight int
+	tag      string
 }
 
 func (g *vL18Gate) log(ev map[string]interface{}) {
@@ -97,8 +99,9 @@ func vL18NewWorker() *vL18Worker {
 			wk.mu.Lock()
 			g := wk.gate
 			wk.mu.Unlock()
-			if g == nil {
-				http.Error(w, "verif: no scenario", http.StatusServiceUnavailable)
+			if g == nil || r.Header.Get("X-Verif-Scn") != g.tag {
+				// a straggler of an earlier scenario of this worker
+				http.Error(w, "verif: no such scenario", http.StatusServiceUnavailable)
 				return
 			}
 			g.mu.Lock()
@@ -172,7 +175,7 @@ func vL18Digestible(mt string) bool {
 
 func vL18Run(wk *vL18Worker, scn vL18Scenario) []map[string]interface{} {
 	rng := rand.New(rand.NewSource(int64(scn.ID)*104729 + scn.RSeed))
-	g := &vL18Gate{arrivals: make(chan *vL18Arrival, 64), sent: map[int]string{}}
+	g := &vL18Gate{arrivals: make(chan *vL18Arrival, 64), sent: map[int]string{}, tag: fmt.Sprint(scn.ID)}
 	wk.mu.Lock()
 	wk.gate = g
 	wk.mu.Unlock()
@@ -188,7 +191,12 @@ func vL18Run(wk *vL18Worker, scn vL18Scenario) []map[string]interface{} {
 		cluster.RemoteClusters["*"] = arvados.RemoteCluster{Proxy: true}
 		cluster.RemoteClusters[ids[0]] = arvados.RemoteCluster{Host: wk.hosts[0], Scheme: "http"}
 	}
-	cluster.API.MaxRequestAmplification = []int{0, 1, 4}[scn.ID%3]
+	// MaxRequestAmplification 1 makes the remote requests sequential: then the order of answers
+	// cannot be chosen, the scenario's steps are ignored and every call is answered as planned
+	cluster.API.MaxRequestAmplification = []int{0, 4, 8}[scn.ID%3]
+	if scn.Seq {
+		cluster.API.MaxRequestAmplification = 1
+	}
 	h := &Handler{Cluster: cluster}
 	h.proxy = &proxy{Name: "arvados-controller"}
 	h.secureClient = &http.Client{CheckRedirect: neverRedirect, Transport: &http.Transport{}}
@@ -252,6 +260,7 @@ func vL18Run(wk *vL18Worker, scn vL18Scenario) []map[string]interface{} {
 			}
 		}()
 		req := httptest.NewRequest("GET", "http://controller.example/arvados/v1/collections/"+request, nil).WithContext(parent)
+		req.Header.Set("X-Verif-Scn", g.tag)
 		req.Header.Set("Authorization", "Bearer v2/"+ids[0]+"-gj3su-000000000000000/"+vC18Hex(rng, 50))
 		w := httptest.NewRecorder()
 		stack.ServeHTTP(w, req)
@@ -259,15 +268,28 @@ func vL18Run(wk *vL18Worker, scn vL18Scenario) []map[string]interface{} {
 		ok := w.Code == http.StatusOK && json.Unmarshal(w.Body.Bytes(), &c) == nil
 		g.mu.Lock()
 		rel := make([]bool, 5)
+		relnl := make([]bool, 5) // the same relation against "what b sent, plus a final newline"
 		if ok {
 			for b, sent := range g.sent {
 				rel[b] = vC18Rel(sent, c.ManifestText, ids[b], b != 0)
+				relnl[b] = !strings.HasSuffix(sent, "\n") && vC18Rel(sent+"\n", c.ManifestText, ids[b], b != 0)
 			}
 		}
 		shape := vC18Shape(g.sent)
 		g.mu.Unlock()
-		g.log(map[string]interface{}{"ev": "done", "ok": ok, "pdhOK": ok && vC18PDH(c.ManifestText) == want,
-			"rel": rel, "shape": shape, "status": w.Code, "fellthrough": fellThrough})
+		ev := map[string]interface{}{"ev": "done", "ok": ok, "pdhOK": ok && vC18PDH(c.ManifestText) == want,
+			"rel": rel, "relnl": relnl, "shape": shape, "status": w.Code, "fellthrough": fellThrough}
+		if os.Getenv("VERIF_C18_DEBUG") != "" {
+			// replay aid: the concrete texts
+			g.mu.Lock()
+			sent := map[string]string{}
+			for b, m := range g.sent {
+				sent[fmt.Sprint(b)] = m
+			}
+			g.mu.Unlock()
+			ev["dbg_request"], ev["dbg_body"], ev["dbg_sent"] = request, w.Body.String(), sent
+		}
+		g.log(ev)
 	}()
 
 	answerOf := func(b int) (vL18Answer, bool) {
@@ -304,6 +326,14 @@ func vL18Run(wk *vL18Worker, scn vL18Scenario) []map[string]interface{} {
 				vC18Hex(rng, 32), vC18Hex(rng, 40), vC18Hex(rng, 32), vC18Hex(rng, 40), vC18Hex(rng, 32), vC18Hex(rng, 40))
 			field = arvados.PortableDataHash(mt)
 		}
+		if scn.Craft == "no_final_newline" {
+			// the honest manifest with its last newline cut off
+			mt = strings.TrimSuffix(honest.render(rng, b), "\n")
+			for try := 0; !vL18Digestible(mt) && try < 200; try++ {
+				mt = strings.TrimSuffix(honest.render(rng, b), "\n")
+			}
+			field = want
+		}
 		kind := "mismatch"
 		if scn.Mode == "uuid" || vC18PDH(mt) == want {
 			kind = "match"
@@ -336,16 +366,37 @@ func vL18Run(wk *vL18Worker, scn vL18Scenario) []map[string]interface{} {
 		}
 		return true
 	}
+	// A backend planned to "hang" answers only when the client is gone or, if the request cannot end
+	// otherwise, last and with a 5xx (a gateway timeout).  The client never cancels: over HTTP an
+	// answer released just before a cancellation could be logged and still be lost.
 	unused := 0
-	cancelled := false
+	hung := map[int]*vL18Arrival{}
+	late5xx := func() {
+		for b, a := range hung {
+			delete(hung, b)
+			a.release <- vL18Answer{kind: "s5xx", status: http.StatusGatewayTimeout, body: `{"errors":["verif: timeout"]}`}
+		}
+	}
 	for i, st := range scn.Steps {
+		if scn.Seq {
+			break
+		}
 		if st.K == "cancel" {
-			g.log(map[string]interface{}{"ev": "cancel"})
-			cancelled = true
-			cancelParent()
+			// the model's "client gives up": every call still outstanding hangs
+			for b := 1; b <= scn.N; b++ {
+				if b < len(scn.Plan) && scn.Plan[b] == "hang" && hung[b] == nil && waitFor(b) {
+					hung[b] = pending[b]
+					delete(pending, b)
+				}
+			}
+			if scn.Plan[0] == "hang" && hung[0] == nil && waitFor(0) {
+				hung[0] = pending[0]
+				delete(pending, 0)
+			}
+			late5xx()
 			continue
 		}
-		if st.K == "cancelled" || cancelled {
+		if st.K == "cancelled" {
 			continue
 		}
 		if !waitFor(st.B) {
@@ -356,22 +407,35 @@ func vL18Run(wk *vL18Worker, scn vL18Scenario) []map[string]interface{} {
 		delete(pending, st.B)
 		if ans, ok := answerOf(st.B); ok {
 			a.release <- ans
+		} else {
+			hung[st.B] = a
 		}
 	}
 	for !isDone() {
 		select {
 		case a := <-g.arrivals:
-			if ans, ok := answerOf(a.b); ok && !cancelled {
+			if ans, ok := answerOf(a.b); ok {
 				a.release <- ans
+			} else {
+				hung[a.b] = a
 			}
 		case <-done:
-		case <-time.After(300 * time.Millisecond):
-			if !cancelled {
-				g.log(map[string]interface{}{"ev": "cancel"})
-				cancelled = true
-				cancelParent()
+		case <-time.After(60 * time.Millisecond):
+			for b, a := range pending {
+				delete(pending, b)
+				if ans, ok := answerOf(b); ok {
+					a.release <- ans
+				} else {
+					hung[b] = a
+				}
+			}
+			if len(hung) > 0 {
+				late5xx()
+				continue
 			}
 			select {
+			case a := <-g.arrivals:
+				pending[a.b] = a
 			case <-done:
 			case <-time.After(20 * time.Second):
 				g.log(map[string]interface{}{"ev": "hang"})
